@@ -1,12 +1,12 @@
 SPECIFICATION Spec
 CONSTANTS
  L = 3
- Chains <- Chains43
- Closed <- NoRings
+ History <- H43
  Grid <- Grid3
  Bundle <- Bundle6
  MaxIter = 5
  MaxReject <- Unlimited
+ Force = FALSE
  Dev <- NoDev
 INVARIANT StepOne
 INVARIANT InBox
@@ -14,4 +14,5 @@ INVARIANT NoOverlap
 INVARIANT RootOnGrid
 INVARIANT Contiguous
 INVARIANT Final
+INVARIANT ForceWithinLimit
 CHECK_DEADLOCK FALSE
